@@ -39,10 +39,15 @@ Reading guide
   (any redundant parentheses).
 * Classic notation: `C09_cla_render`, `C09_cla_tokens`, `C09_cla_ok_iff`, `C09_cla_err_iff`,
   `C09_cla_wellformed_iff`, `C09_cla_wellformed_iff_printing`, `C09_cla_complete`,
-  `C09_toDeBruijn_spec`, `C09_cla_denotes`, `C09_cla_invalid_char(_binder)(_backslash)`.
-  A variable name ends at whitespace, a parenthesis, the end of the input or a BACKSLASH (the ASCII
-  lambda glyph, never part of an identifier): `x\y.y` is `x (\y.y)`
-  (`C09_cla_backslash_ends_name`).
+  `C09_toDeBruijn_spec`, `C09_cla_denotes`, `C09_cla_invalid_char(_binder)(_backslash)`,
+  `C09_cla_junk_after_name`.
+  An identifier is a letter followed by alphanumeric characters (`Cl.WfName`).  A variable name ends
+  at the end of the input or at the first character that is NOT alphanumeric, which is then lexed
+  like any character at top level: whitespace, a parenthesis, a BACKSLASH (the ASCII lambda glyph:
+  `x\y.y` is `x (\y.y)`, `C09_cla_backslash_ends_name`) — and anything else that cannot start a
+  token is `InvalidCharacter` (`x.y`, `x#`, `λx.x-`: `C09_cla_junk_after_name`,
+  `C09_cla_junk_dot/_hash/_minus`; repair F10 of the crate — before it the junk was swallowed into
+  the name).
 * Both: `C09_notations_agree*`, `C09_no_truncation*`, `C09_cla_unmatched_rparen`, `C09_no_panic`.
 -/
 import LC.Proofs.Syntax.DeBruijn
@@ -671,18 +676,18 @@ theorem C09_cla_whitespace_glyph_invariant (cls : CharCls) (hcls : Cl.ClsOk cls)
   parse_cla_render_indep cls hcls cts s₁ s₂ h₁ h₂
 
 /-- whitespace between a variable name and a following BACKSLASH binder is optional: the backslash
-(which can never be part of an identifier) ends the name.  After any prefix `pre` that renders
+(which is not alphanumeric, `Cl.ClsOk`, so can never be part of an identifier) ends the name.  After any prefix `pre` that renders
 complete tokens and ends at top level, for any well-formed name `n`, any (possibly empty) run of
 whitespace `ws` and any rendering `\ …` that starts with a backslash (necessarily a binder), the
 strings `pre n ws \ …` and `pre n \ …` are renderings of the same named tokens … -/
-theorem C09_cla_renders_name_backslash (cls : CharCls) (ts₀ cts : List CToken)
-    (pre n ws s : List Nat)
+theorem C09_cla_renders_name_backslash (cls : CharCls) (hcls : Cl.ClsOk cls)
+    (ts₀ cts : List CToken) (pre n ws s : List Nat)
     (hpre : Cl.Renders cls ts₀ pre) (hend : Cl.EndsTop cls pre) (hn : Cl.WfName cls n)
     (hws : ∀ w ∈ ws, cls.isWs w = true) (hs : Cl.Renders cls cts (cBackslash :: s)) :
     Cl.Renders cls (ts₀ ++ CToken.CName n :: cts) (pre ++ (n ++ (ws ++ cBackslash :: s))) ∧
     Cl.Renders cls (ts₀ ++ CToken.CName n :: cts) (pre ++ (n ++ cBackslash :: s)) :=
-  ⟨renders_name_backslash cls ts₀ cts pre n ws s hpre hend hn hws hs,
-   renders_name_backslash cls ts₀ cts pre n [] s hpre hend hn (by simp) hs⟩
+  ⟨renders_name_backslash cls hcls ts₀ cts pre n ws s hpre hend hn hws hs,
+   renders_name_backslash cls hcls ts₀ cts pre n [] s hpre hend hn (by simp) hs⟩
 
 /-- … hence have the same outcome (term or error): inserting or omitting whitespace between a
 variable name and a following backslash binder never changes the result -/
@@ -692,7 +697,7 @@ theorem C09_cla_whitespace_before_backslash (cls : CharCls) (hcls : Cl.ClsOk cls
     (hws : ∀ w ∈ ws, cls.isWs w = true) (hs : Cl.Renders cls cts (cBackslash :: s)) :
     parse cls (pre ++ (n ++ (ws ++ cBackslash :: s))) .Classic
       = parse cls (pre ++ (n ++ cBackslash :: s)) .Classic :=
-  have h := C09_cla_renders_name_backslash cls ts₀ cts pre n ws s hpre hend hn hws hs
+  have h := C09_cla_renders_name_backslash cls hcls ts₀ cts pre n ws s hpre hend hn hws hs
   C09_cla_whitespace_glyph_invariant cls hcls _ _ _ h.1 h.2
 
 /-! ### lexical errors -/
@@ -709,6 +714,38 @@ theorem C09_cla_invalid_char (cls : CharCls) (hcls : Cl.ClsOk cls)
     parse cls (pre ++ c :: post) .Classic = .err (.InvalidCharacter pre.length c) :=
   C09_cla_lex_error cls _ _
     (tokenizeCla_invalid_top cls hcls ts₀ pre c post hpre hend hglyph hlp hrp hws halpha)
+
+/-- JUNK DIRECTLY AFTER A VARIABLE NAME (the Classic analogue of `C09_dbr_invalid_char` for a
+character that follows an identifier without a separator): after a prefix `pre` that renders
+complete tokens and ends at top level, and a well-formed name `n` (a letter, then alphanumeric
+characters), a character `c` that can neither continue the name (it is not alphanumeric) nor start
+a token (it is not a glyph, a parenthesis, whitespace or a letter) is reported by `parse` as
+`InvalidCharacter`, with its character index and the character — it is NOT swallowed into the name
+(`x.y`, `x#`, `λx.x-` …).  (Under `Cl.ClsOk` a letter is alphanumeric, so `halpha` follows from
+`halnum`; it is kept to state the five conditions side by side.) -/
+theorem C09_cla_junk_after_name (cls : CharCls) (hcls : Cl.ClsOk cls)
+    (ts₀ : List CToken) (pre n : List Nat) (c : Nat) (rest : List Nat)
+    (hpre : Cl.Renders cls ts₀ pre) (hend : Cl.EndsTop cls pre) (hn : Cl.WfName cls n)
+    (halnum : cls.isAlnum c = false)
+    (hglyph : isLam c = false) (hlp : c ≠ cLparen) (hrp : c ≠ cRparen)
+    (hws : cls.isWs c = false) (halpha : cls.isAlpha c = false) :
+    parse cls (pre ++ n ++ c :: rest) .Classic
+      = .err (.InvalidCharacter (pre.length + n.length) c) :=
+  C09_cla_lex_error cls _ _
+    (tokenizeCla_invalid_after_name cls hcls ts₀ pre n c rest hpre hend hn halnum hglyph hlp hrp
+      hws halpha)
+
+/-- the two cases together: a character that cannot start a token is reported with its index after
+ANY rendering of complete tokens, provided the rendering ends at top level or the character is not
+alphanumeric (so that it ends a name the rendering may end in) -/
+theorem C09_cla_invalid_char_general (cls : CharCls) (hcls : Cl.ClsOk cls)
+    (ts₀ : List CToken) (pre : List Nat) (c : Nat) (post : List Nat)
+    (hpre : Cl.Renders cls ts₀ pre) (hend : Cl.EndsTop cls pre ∨ cls.isAlnum c = false)
+    (hglyph : isLam c = false) (hlp : c ≠ cLparen) (hrp : c ≠ cRparen)
+    (hws : cls.isWs c = false) (halpha : cls.isAlpha c = false) :
+    parse cls (pre ++ c :: post) .Classic = .err (.InvalidCharacter pre.length c) :=
+  C09_cla_lex_error cls _ _
+    (tokenizeCla_invalid_top' cls hcls ts₀ pre c post hpre hend hglyph hlp hrp hws halpha)
 
 /-- inside a binder (after the glyph and a possibly empty partial name `nm`), a character other than
 the dot that cannot continue the name — not a letter if `nm` is empty, not alphanumeric otherwise —
@@ -934,7 +971,7 @@ Code points: `λ` 955, `\` 92, `(` 40, `)` 41, `.` 46, space 32, `#` 35, `0`..`9
 `LC/Proofs/Syntax/Classic.lean`. -/
 
 namespace C09.Examples
-open C09C.Examples (asciiCls asciiCls_ok wf_single wf_x wf_y wf_z renders₁ renders₂ renders₆)
+open C09C.Examples (asciiCls asciiCls_ok nameEnd_of wf_single wf_x wf_y wf_z renders₁ renders₂ renders₆)
 open Parser.CToken Parser.Token Cl.NTerm
 
 /-- ground evaluation of the token-level stage (`foldList` is compiled by well-founded recursion,
@@ -1043,9 +1080,9 @@ example : Gr.DExpr [Lambda, Lambda, Lambda, Number 3, Number 1, Lparen, Number 2
 /-! ### Classic notation -/
 
 theorem wf_a : Cl.WfName asciiCls [97] :=
-  wf_single 97 (by decide) (by decide) (by decide) (by decide) (by decide) (by decide)
+  wf_single 97 (by decide) (by decide) (by decide)
 theorem wf_b : Cl.WfName asciiCls [98] :=
-  wf_single 98 (by decide) (by decide) (by decide) (by decide) (by decide) (by decide)
+  wf_single 98 (by decide) (by decide) (by decide)
 
 /-- the named term `λx.λy.x y z` -/
 def t₁ : Cl.NTerm := nlam [120] (nlam [121] (napp (napp (nvar [120]) (nvar [121])) (nvar [122])))
@@ -1101,13 +1138,39 @@ example : parse asciiCls ([] ++ ([120] ++ ([32, 32] ++ 92 :: [121, 46, 121]))) .
     [] [120] [32, 32] [121, 46, 121] .nil (by intro c h; simp at h) wf_x (by decide)
     (.lam (g := 92) (n := [121]) (by decide) wf_y (.name (n := [121]) wf_y trivial .nil))
 
-/-- the other glyph `λ` is a letter: `xλy.y` is ONE name (here a free variable) -/
-example : parse asciiCls [120, 955, 121, 46, 121] .Classic = .ok (var 1) := by
-  rw [parse_cla_spec, show tokenizeCla asciiCls [120, 955, 121, 46, 121]
-    = .ok [CName [120, 955, 121, 46, 121]] from rfl]
-  simp only [show convertClassicTokens [CName [120, 955, 121, 46, 121]]
+/-- the other glyph `λ` is a letter: in `xλy.y` it continues the name `xλy`, which the dot — not
+alphanumeric and unable to start a token — ends with an error at character 3 … -/
+example : parse asciiCls [120, 955, 121, 46, 121] .Classic = .err (.InvalidCharacter 3 46) := rfl
+
+/-- … and `xλy` alone is ONE name (a free variable) -/
+example : parse asciiCls [120, 955, 121] .Classic = .ok (var 1) := by
+  rw [parse_cla_spec, show tokenizeCla asciiCls [120, 955, 121]
+    = .ok [CName [120, 955, 121]] from rfl]
+  simp only [show convertClassicTokens [CName [120, 955, 121]]
     = some [Number 1] from by decide]
   c09_eval
+
+/-- junk directly after a name (by evaluation of the model): `x.y`, `x#`, `λx.x-` -/
+theorem ex_junk_dot : parse asciiCls [120, 46, 121] .Classic = .err (.InvalidCharacter 1 46) := rfl
+theorem ex_junk_hash : parse asciiCls [120, 35] .Classic = .err (.InvalidCharacter 1 35) := rfl
+theorem ex_junk_minus :
+    parse asciiCls [955, 120, 46, 120, 45] .Classic = .err (.InvalidCharacter 4 45) := rfl
+
+/-- the same from the general theorem `C09_cla_junk_after_name`: `λx.x-` is the rendering `λx.` of
+a binder (ending at top level, with its dot), the name `x`, and the character `-` (45) -/
+example : parse asciiCls ([955, 120, 46] ++ [120] ++ 45 :: []) .Classic
+    = .err (.InvalidCharacter (3 + 1) 45) :=
+  C09_cla_junk_after_name asciiCls asciiCls_ok [CLambda [120]] [955, 120, 46] [120] 45 []
+    (.lam (g := 955) (n := [120]) (by decide) wf_x .nil)
+    (by intro c h; simp at h; subst h; decide) wf_x
+    (by decide) (by decide) (by decide) (by decide) (by decide) (by decide)
+
+/-- … and `x.y`: empty prefix, the name `x`, the dot -/
+example : parse asciiCls ([] ++ [120] ++ 46 :: [121]) .Classic
+    = .err (.InvalidCharacter (0 + 1) 46) :=
+  C09_cla_junk_after_name asciiCls asciiCls_ok [] [] [120] 46 [121] .nil
+    (by intro c h; simp at h) wf_x
+    (by decide) (by decide) (by decide) (by decide) (by decide) (by decide)
 
 /-- `x\1`: the binder opened by the backslash is validated; `1` is character number 2 -/
 example : parse asciiCls ([120] ++ 92 :: ([] ++ 49 :: [])) .Classic
@@ -1118,9 +1181,9 @@ example : parse asciiCls ([120] ++ 92 :: ([] ++ 49 :: [])) .Classic
 /-- `a λb.b a` is a rendering of its tokens … -/
 theorem renders₃ : Cl.Renders asciiCls [CName [97], CLambda [98], CName [98], CName [97]]
     [97, 32, 955, 98, 46, 98, 32, 97] :=
-  .name (n := [97]) wf_a (Or.inl (by decide)) <| .ws (by decide) <|
+  .name (n := [97]) wf_a (nameEnd_of (by decide)) <| .ws (by decide) <|
   .lam (g := 955) (n := [98]) (by decide) wf_b <|
-  .name (n := [98]) wf_b (Or.inl (by decide)) <| .ws (by decide) <|
+  .name (n := [98]) wf_b (nameEnd_of (by decide)) <| .ws (by decide) <|
   .name (n := [97]) wf_a trivial .nil
 
 /-- … which are an admissible printing of `t₂`: the abstraction stays bare in final position -/
@@ -1146,10 +1209,10 @@ theorem renders₄ : Cl.Renders asciiCls
     [CLparen, CName [97], CRparen, CLparen, CLambda [98], CLparen, CLparen, CName [98], CRparen,
       CName [97], CRparen, CRparen]
     [40, 97, 41, 32, 40, 92, 98, 46, 40, 40, 98, 41, 32, 97, 41, 41] :=
-  .lparen <| .name (n := [97]) wf_a (Or.inr (Or.inr (Or.inl rfl))) <| .rparen <| .ws (by decide) <|
+  .lparen <| .name (n := [97]) wf_a (nameEnd_of (by decide)) <| .rparen <| .ws (by decide) <|
   .lparen <| .lam (g := 92) (n := [98]) (by decide) wf_b <| .lparen <| .lparen <|
-  .name (n := [98]) wf_b (Or.inr (Or.inr (Or.inl rfl))) <| .rparen <| .ws (by decide) <|
-  .name (n := [97]) wf_a (Or.inr (Or.inr (Or.inl rfl))) <| .rparen <| .rparen .nil
+  .name (n := [98]) wf_b (nameEnd_of (by decide)) <| .rparen <| .ws (by decide) <|
+  .name (n := [97]) wf_a (nameEnd_of (by decide)) <| .rparen <| .rparen .nil
 
 theorem prints₄ : Cl.PrintsN t₂ false true
     [CLparen, CName [97], CRparen, CLparen, CLambda [98], CLparen, CLparen, CName [98], CRparen,
@@ -1216,7 +1279,7 @@ example : ∃ t, parse asciiCls [97, 32, 955, 98, 46, 98, 32, 97] .Classic = .ok
 theorem renders₅ : Cl.Renders asciiCls [CLambda [97], CName [97], CRparen, CName [98]]
     [955, 97, 46, 97, 41, 32, 98] :=
   .lam (g := 955) (n := [97]) (by decide) wf_a <|
-  .name (n := [97]) wf_a (Or.inr (Or.inr (Or.inl rfl))) <| .rparen <| .ws (by decide) <|
+  .name (n := [97]) wf_a (nameEnd_of (by decide)) <| .rparen <| .ws (by decide) <|
   .name (n := [98]) wf_b trivial .nil
 
 example : ¬ ∃ nt, Cl.PrintsN nt false true [CLambda [97], CName [97], CRparen, CName [98]] := by
@@ -1228,7 +1291,7 @@ example : ¬ ∃ nt, Cl.PrintsN nt false true [CLambda [97], CName [97], CRparen
 /-- `x #x`: `#` (35) cannot start a token; it is character number 2 -/
 example : parse asciiCls ([120, 32] ++ 35 :: [120]) .Classic = .err (.InvalidCharacter 2 35) :=
   C09_cla_invalid_char asciiCls asciiCls_ok [CName [120]] [120, 32] 35 [120]
-    (.name (n := [120]) wf_x (Or.inl (by decide)) (.ws (by decide) .nil))
+    (.name (n := [120]) wf_x (nameEnd_of (by decide)) (.ws (by decide) .nil))
     (by intro c h; simp at h; subst h; decide)
     (by decide) (by decide) (by decide) (by decide) (by decide)
 example : parse asciiCls [120, 32, 35, 120] .Classic = .err (.InvalidCharacter 2 35) := rfl
@@ -1280,5 +1343,23 @@ input was one identifier and `parse` returned `Ok(Var(1))` -/
 theorem C09_cla_backslash_ends_name :
     parse C09C.Examples.asciiCls [120, 92, 121, 46, 121] .Classic = .ok (app (var 1) (abs (var 1))) :=
   C09.Examples.ex_backslash_ends_name
+
+/-- the string `x.y`: the dot cannot continue the name `x` and cannot start a token (repair F10 of
+the crate); before the repair `x.y` was one identifier and `parse` returned `Ok(Var(1))` -/
+theorem C09_cla_junk_dot :
+    parse C09C.Examples.asciiCls [120, 46, 121] .Classic = .err (.InvalidCharacter 1 46) :=
+  C09.Examples.ex_junk_dot
+
+/-- the string `x#` -/
+theorem C09_cla_junk_hash :
+    parse C09C.Examples.asciiCls [120, 35] .Classic = .err (.InvalidCharacter 1 35) :=
+  C09.Examples.ex_junk_hash
+
+/-- the string `λx.x-`; before the repair `parse` returned `Ok(λ2)`: the bound variable had silently
+turned into a free one named `x-` -/
+theorem C09_cla_junk_minus :
+    parse C09C.Examples.asciiCls [955, 120, 46, 120, 45] .Classic
+      = .err (.InvalidCharacter 4 45) :=
+  C09.Examples.ex_junk_minus
 
 end LC
